@@ -309,6 +309,20 @@ func c08cases(seed int64, i int, keys *gen.KeyRing) []c08case {
 			}
 			return ""
 		}, cls},
+		c08case{"Sign1Message.MarshalCBOR(raw fields emptied, not nil)", func() ([]byte, error) {
+			h := hdr()
+			h.RawProtected, h.RawUnprotected = []byte{}, make([]byte, 0, 8)
+			return (&cose.Sign1Message{Headers: h, Payload: payload, Signature: sig}).MarshalCBOR()
+		}, func(out []byte) string {
+			var d cose.Sign1Message
+			if err := d.UnmarshalCBOR(out); err != nil {
+				return "own output refused by the decoder: " + err.Error()
+			}
+			if !eqHeader(prot, d.Headers.Protected) || !eqHeader(unprot, d.Headers.Unprotected) {
+				return "decoded value not equivalent to the source"
+			}
+			return ""
+		}, cls},
 		c08case{"UntaggedSign1Message.MarshalCBOR", func() ([]byte, error) {
 			return (&cose.UntaggedSign1Message{Headers: hdr(), Payload: payload, Signature: sig}).MarshalCBOR()
 		}, func(out []byte) string {
